@@ -16,7 +16,9 @@ PROP = dict(
                "all-or-nothing), the in-memory record container under ReuseRecord, the reflect store into a pre-populated "
                "*[][]string, and the kind dispatch of CSVConsumer (13 destination kinds) and CSVProducer (16 source kinds); the "
                "property says: delivered = Drop(skipped, parsed table) for every kind (hence all kinds agree), malformed input => "
-               "error, unsupported / nil / typed-nil => error, never a panic, delivered records never alias. TLC checks model |= "
+               "error, unsupported / nil / typed-nil => error, never a panic, delivered records never alias (neither by overwriting nor by appending to a row), malformed input is "
+               "reported with the parser's error by every kind, and a codec value used for several calls behaves the same in each "
+               "(history state machine over the skipped-lines counter). TLC checks model |= "
                "property for all tables of <=2/3 records x <=2 fields x malformed x skip 0..n+1 x reuse x pre-population 0..n+1 x "
                "kinds, and validates every real Consume / Produce call of the driver - 25 text classes x all reader-option "
                "combinations x skip counts x every kind x pre-population, plus seeded random tables - against the property, with "
@@ -33,7 +35,9 @@ PROP = dict(
          "field) x separator {default, ;} x comment {none, #} x lazy quotes x trimmed space x fields per record {0, 2, -1} x "
          "skipped lines {0, 1, n, n+1} x 13 destination + 16 source kinds x pre-populated *[][]string {fresh, shorter, equal, "
          "longer, much longer}; writer separator / CRLF / ReuseRecord / closing rotate (quick; also lazy+trim together and two of "
-         "the four skip counts per option set) or are multiplied out (thorough). Seeded part: 3000 / 30000 random tables of up to "
+         "the four skip counts per option set) or are multiplied out (thorough). Plus long inputs (24 KiB valid; malformed early / middle / unterminated quote "
+         "with >= 2 read buffers of further text) for every kind, and histories of 2-3 calls with ONE codec value (6 text classes x "
+         "skip {1,2,3,6} x supported kinds). Seeded part: 3000 / 30000 random tables of up to "
          "30 x 6 fields over a CSV-hostile alphabet with random perturbation, separators incl. tab and |. Non-trivial: the "
          "reference table is non-empty or the text is malformed; distinct by hash of the case.",
     assumptions=COMMON_ASSUME + [
